@@ -36,7 +36,8 @@ PROPS = {
                     f"<{FFN}<K> as category::traits::Monoidal>::tensor",
                     f"<{FFN}<K> as category::traits::Coproduct>::coproduct",
                     "lax::open_hypergraph::OpenHypergraph::<O, A>::tensor", "lax::hypergraph::Hypergraph::<O, A>::coproduct",
-                    "Monoidal for lax::open_hypergraph::OpenHypergraph<O, A>>::tensor"],
+                    "Monoidal for lax::open_hypergraph::OpenHypergraph<O, A>>::tensor",
+                    "lax::mut_category::"],      # the in-place forms of the same juxtaposition
         "anchors": [f"<{S_OH}<K, O, A> as category::traits::Monoidal>::tensor", f"{S_H}::<K, O, A>::coproduct",
                     "lax::open_hypergraph::OpenHypergraph::<O, A>::tensor"],
         "rules": [], "level": "proof",
@@ -164,9 +165,11 @@ PROPS.update({
         "clause": "quotient returns the connected-components map of the pending unifications; on failure the diagram "
                   "is exactly as before (atomic); on success every node reference (edge sources/targets, both "
                   "interfaces) is replaced by its image, edges/labels/order untouched, every node keeps its label "
-                  "class, pending unifications cleared; result well-formed",
+                  "class, pending unifications cleared; result well-formed; unify records exactly the pair it is given "
+                  "(the pending list quotient later merges)",
         "entries": ["lax::hypergraph::Hypergraph::<O, A>::quotient", "lax::open_hypergraph::OpenHypergraph::<O, A>::quotient",
-                    "lax::hypergraph::Hypergraph::<O, A>::coequalizer"],
+                    "lax::hypergraph::Hypergraph::<O, A>::coequalizer",
+                    "lax::hypergraph::Hypergraph::<O, A>::unify", "lax::open_hypergraph::OpenHypergraph::<O, A>::unify"],
         "anchors": ["lax::hypergraph::Hypergraph::<O, A>::quotient", "lax::open_hypergraph::OpenHypergraph::<O, A>::quotient",
                     "lax::hypergraph::Hypergraph::<O, A>::coequalizer", "finite_function::arrow::coequalizer_universal"],
         "rules": ["DELEG"], "level": "proof",
@@ -234,6 +237,7 @@ PROPS.update({
                   "their typing / well-formedness / value obligations when those primitives are modelled by their "
                   "documented contract ALONE (uninterpreted numbering / filler / order), so no proof step can lean on an "
                   "accident of the Vec backend",
+        "premises_skip": ("array::vec::",),      # backend independence never rests on the Vec backend
         "entries": [f"<{S_OH}<K, O, A> as category::traits::Arrow>::compose", f"<&{S_OH}<K, O, A> as std::ops::Shr<",
                     f"{S_H}::<K, O, A>::coequalize_vertices", f"{FFN}::<K>::coequalizer",
                     f"{FFN}::<K>::coequalizer_universal", "finite_function::arrow::coequalizer_universal",
